@@ -43,6 +43,12 @@ def check(repo, col, tier):
     _write_back(repo, col)
     _pair(repo, col)
     _tojax(repo, col)
+    # a group that shares a trainable must still name its own compartments after set_ncomp renumbered the rows (shared with C13/C19)
+    from . import c13 as _c13
+    col.rule("R-C10-relabel", "row-label registries (groups, trainables, ...) are guarded or rewritten when rows are renumbered", 4)
+    _c13.relabel(repo, col, "R-C10-relabel")
+    col.rule("R-C10-pstate", "data_set() and trainable entries reach parameters and initial states alike", 3)
+    _pstate_args(repo, col)
     col.rule("R-C10-groups", "a group that shares a trainable is extended on the base's registry, never on a view's filtered copy", 3)
     from . import c11
     c11._basestate(repo, col, "R-C10-groups")
@@ -290,10 +296,14 @@ def scatter_sites(repo, col, cl, R, RS):
                 arr_node = n.func.value.value.value
                 keyt = ex.term(arr_node.slice)
                 arr = T("sub", None, [T("param", "states"), keyt])
-                ix = idx.inline(repo, fi, ex.term(n.func.value.slice))  # helpers that produce the index are looked through
+                from sa.terms import fuse_comprehensions as _fuse_ix
+                # helpers that produce the index are looked through; unpacking of a comprehension over literal keys is resolved
+                ix = _fuse_ix(idx.inline(repo, fi, ex.term(n.func.value.slice)))
+                keyt = _fuse_ix(keyt)
+                arr = T("sub", None, [T("param", "states"), keyt])
                 for kc in idx.KCS:
                     d = cl.domain(arr, kc)
-                    raw, remapped = _strip_drop_remap(ix, n, ex.term(arr_node))
+                    raw, remapped = _strip_drop_remap(ix, n, _fuse_ix(ex.term(arr_node)))
                     sp = cl.space(raw, kc)
                     if d is None or sp is None:
                         col.unk(R, fi, f"{unparse(n)[:80]} [{kc} key]", f"index space not derivable (domain {d}, index {sp})", node=n)
@@ -341,6 +351,37 @@ def _strip_drop_remap(ix: T, call: ast.Call, arr_node):
 
 
 # --------------------------------------------------------------------------------------
+
+
+def _pstate_args(repo, col, R="R-C10-pstate"):
+    """init_fn hands ONE list of overrides -- the trainables followed by the data_set() entries -- to get_all_parameters and to
+    get_all_states: data_set() of an initial state must reach the states exactly as data_set() of a parameter reaches the
+    parameters."""
+    from sa.terms import canon
+    init = repo.func("jaxley/integrate.py", "build_init_and_step_fn")
+    exi = idx.expander(repo, init).nested.get("init_fn")
+    if exi is None:
+        raise AnalysisError("init_fn vanished")
+    args = {}
+    for c in exi.calls:
+        if isinstance(c.func, ast.Attribute) and c.func.attr in ("get_all_parameters", "get_all_states"):
+            t = exi.term(c)
+            a = t.args[1] if len(t.args) > 1 else t.kw.get("pstate")
+            if a is not None:
+                args[c.func.attr] = (canon(a), c)
+    if set(args) != {"get_all_parameters", "get_all_states"}:
+        raise AnalysisError("init_fn no longer calls get_all_parameters / get_all_states with a pstate")
+    for nm, (a, c) in sorted(args.items()):
+        has_tr = T.find(a, lambda x: x.op == "call" and x.name == "params_to_pstate") is not None
+        has_ds = T.find(a, lambda x: x.op == "binop" and x.name == "+" and
+                        any(y.op == "param" and y.name == "param_state" for y in x.args)) is not None
+        col.check(has_tr and has_ds, R, exi.fi, f"init_fn: {nm} receives the trainables AND the data_set entries",
+                  "params_to_pstate(params, ...) + param_state",
+                  f"{nm} receives {a.short(100)}: " + ("values fed with data_set() (param_state) never reach it" if not has_ds else
+                                                        "the trainable parameters never reach it"), node=c)
+    pa, sa_ = args["get_all_parameters"][0], args["get_all_states"][0]
+    col.check(pa.key() == sa_.key(), R, exi.fi, "init_fn: parameters and initial states are assembled from the same list of overrides",
+              "one pstate", "get_all_parameters and get_all_states receive different override lists", node=args["get_all_states"][1])
 
 
 def _write_back(repo, col):
